@@ -1,8 +1,216 @@
-(** C07 (stub while the check is being built). *)
-From V.lib Require Import Prelude.
+(** C07: a chart's XML reports exactly the data it was given.  Statements only; every
+    proof is [exact] of a lemma of proofs/ChartData_proofs.v.
+
+    Vocabulary (model/ChartData.v, proofs/ChartData_proofs.v):
+    [write ct d] the chart part a writer makes for XL_CHART_TYPE value [ct] and chart data
+    [d]; [replace sc d c] Chart.replace_data ([sc] = the successor declarations of
+    c:ser's data children, arbitrary); [area_sers c] plotArea.sers; [chart_names],
+    [chart_values] what series.name / series.values report over all plots (values are the
+    text of c:v, None where there is no c:pt); [plot_cat_labels], [plot_flattened],
+    [plot_cat_levels], [plot_cat_depth], [plot_cat_count] = list(categories),
+    flattened_labels, levels as (idx, label), depth and len of plot.categories;
+    [data_names d], [data_values d] names and (Y) values supplied; [paths_f f] the
+    root-to-leaf label paths of the category forest [f]; [levels f] Categories.levels of the
+    chart data (leaf level first, idx = offset of the first leaf); [kept ct l] = [l] except
+    for the pie types where it is the first element of [l]; [cat_text b f D l] the text
+    reported for label [l] (see [C07_label_text]); [xml_norm] CR/LF normalisation of an XML
+    parser. *)
+From V.lib Require Import Prelude Wire Calendar.
 From V.model Require Import ChartData.
 From V.proofs Require Import ChartData_proofs.
+Local Open Scope Z_scope.
 
-Theorem C07_stub : True.
-Proof. exact stub_true. Qed.
-Print Assumptions C07_stub.
+(** values: every series, every position, None where the value was missing, empty series
+    included; X values of XY and bubble charts; idx and order unique. *)
+Theorem C07_values : forall ct d c, write ct d = Ok c ->
+  chart_names c = kept ct (map xml_norm (data_names d)) /\
+  chart_values c = kept ct (data_values d) /\
+  uniq (area_sers c) /\
+  match d with DCat _ _ _ => True | _ => chart_xvalues c = kept ct (data_xvalues d) end.
+Proof. exact write_reports. Qed.
+Print Assumptions C07_values.
+
+Theorem C07_bubble_sizes : forall ct sers c, ct = 15 \/ ct = 87 -> write ct (DBub sers) = Ok c ->
+  chart_sizes c = data_sizes (DBub sers).
+Proof. exact write_bubble_sizes. Qed.
+Print Assumptions C07_bubble_sizes.
+
+(** Reading the cache a writer builds gives back the list of values. *)
+Theorem C07_cache_roundtrip : forall fmt vals, read_cache (num_cache fmt vals) = vals.
+Proof. exact read_num_cache. Qed.
+Print Assumptions C07_cache_roundtrip.
+
+(** names are verbatim when they contain no carriage return *)
+Theorem C07_names : forall ct d c, write ct d = Ok c ->
+  Forall (fun s => no_cr s = true) (data_names d) -> chart_names c = kept ct (data_names d).
+Proof. exact write_names_verbatim. Qed.
+Print Assumptions C07_names.
+
+Theorem C07_replace_names : forall sc d c c', replace sc d c = Ok c' -> homog (ch_plots c) ->
+  Forall (fun s => no_cr s = true) (data_names d) -> chart_names c' = data_names d.
+Proof. exact replace_names_verbatim. Qed.
+Print Assumptions C07_replace_names.
+
+(** the full statement (every chart type reports every series) is refuted for pie types *)
+Theorem C07_values_pie_refuted : exists ct d c, write ct d = Ok c /\
+  chart_values c <> data_values d /\ chart_names c <> map xml_norm (data_names d).
+Proof. exact pie_refuted. Qed.
+Print Assumptions C07_values_pie_refuted.
+
+Theorem C07_names_cr_refuted : exists ct d c, write ct d = Ok c /\ chart_names c <> data_names d.
+Proof. exact cr_refuted. Qed.
+Print Assumptions C07_names_cr_refuted.
+
+(** idx / order unique after write (in [C07_values]) and after any sequence of replace_data *)
+Theorem C07_idx_order_unique : forall sc ct d ops c0 c,
+  write ct d = Ok c0 -> replace_all sc ops c0 = Ok c -> uniq (area_sers c).
+Proof.
+  exact (fun sc ct d ops c0 c Hw Hr =>
+           history_uniq sc ops c0 c (proj1 (proj2 (proj2 (write_reports ct d c0 Hw)))) Hr).
+Qed.
+Print Assumptions C07_idx_order_unique.
+
+Theorem C07_idx_order_preserved : forall sc ops c c',
+  uniq (area_sers c) -> replace_all sc ops c = Ok c' -> uniq (area_sers c').
+Proof. exact history_uniq. Qed.
+Print Assumptions C07_idx_order_preserved.
+
+(** categories of a written chart: count, depth, flattened labels = root-to-leaf paths
+    (ragged branching allowed), list(categories) = the leaves, levels with idx = first-leaf
+    offset. *)
+Theorem C07_categories : forall ct f fmt sers c,
+  write ct (DCat f fmt sers) = Ok c -> sers <> [] -> f <> [] ->
+  exists p, ch_plots c = [p] /\
+  exists D, forest_depth f = Some D /\ (1 <= D)%nat /\
+    let tau := cat_text false f D in
+    plot_cat_count p = leaves_f f /\
+    plot_cat_depth p = Z.of_nat D /\
+    plot_flattened p = map (map tau) (paths_f f) /\
+    plot_cat_labels p = map (fun path => tau (last path dlabel)) (paths_f f) /\
+    plot_cat_levels p = if Nat.eqb D 1 then [] else map (map (tau' tau)) (levels f).
+Proof. exact write_categories. Qed.
+Print Assumptions C07_categories.
+
+(** the parentage scan on levels whose idx are first-leaf offsets finds the ancestors *)
+Theorem C07_flattened : forall tau f D, f <> [] -> all_depth D f ->
+  flattened_of_levels (map (map (tau' tau)) (levels f)) = map (map tau) (paths_f f).
+Proof. exact flattened_levels. Qed.
+Print Assumptions C07_flattened.
+
+(** label texts: strings verbatim (no carriage return, not empty), numbers as Python's
+    text of the number, dates as the serial number with one decimal *)
+Theorem C07_label_text :
+  (forall b f D s, cat_numeric f D = false -> no_cr s = true -> s <> [] -> cat_text b f D (LStr s) = s) /\
+  (forall b f t, cat_numeric f 1 = true -> no_cr t = true -> t <> [] -> cat_text b f 1 (LNum t) = t) /\
+  (forall b f y m d, cat_numeric f 1 = true ->
+     cat_text b f 1 (LDate y m d) = show_Z (excel_serial b y m d) ++ s_dot0).
+Proof. exact (conj cat_text_str (conj cat_text_num cat_text_date)). Qed.
+Print Assumptions C07_label_text.
+
+Theorem C07_serial : forall y m d,
+  let n := ordinal (y, m, d) - ordinal (1899, 12, 31) in
+  excel_serial false y m d = (if n <=? 59 then n else n + 1) /\
+  excel_serial true y m d = ordinal (y, m, d) - ordinal (1904, 1, 1) /\
+  excel_serial false y m d <> 60.
+Proof. exact excel_serial_spec. Qed.
+Print Assumptions C07_serial.
+
+Theorem C07_serial_monotone : forall b y1 m1 d1 y2 m2 d2,
+  ordinal (y1, m1, d1) < ordinal (y2, m2, d2) -> excel_serial b y1 m1 d1 < excel_serial b y2 m2 d2.
+Proof. exact excel_serial_mono. Qed.
+Print Assumptions C07_serial_monotone.
+
+Example C07_serial_leap_bug :
+  excel_serial false 1900 2 28 = 59 /\ excel_serial false 1900 3 1 = 61 /\
+  excel_serial false 1900 1 1 = 1 /\ excel_serial true 1904 1 2 = 1.
+Proof. repeat split. Qed.
+
+Theorem C07_categories_empty_label_refuted : exists ct f sers c p,
+  write ct (DCat f None sers) = Ok c /\ ch_plots c = [p] /\
+  plot_cat_labels p <> map (fun t => label_str (tree_label t)) f /\ plot_cat_labels p = [s_None; [98%N]].
+Proof. exact empty_label_refuted. Qed.
+Print Assumptions C07_categories_empty_label_refuted.
+
+Theorem C07_date_format_quote_refuted : exists ct d, data_len d = 1%nat /\ write ct d = Err OtherErr.
+Proof. exact date_quote_refuted. Qed.
+Print Assumptions C07_date_format_quote_refuted.
+
+Theorem C07_foreign_levels_refuted : exists leaf parent : Z * str,
+  fst leaf < fst parent /\ flattened_of_levels [[leaf]; [parent]] = [[snd parent; snd leaf]].
+Proof. exact foreign_levels_refuted. Qed.
+Print Assumptions C07_foreign_levels_refuted.
+
+(** replace_data: the new names and values are reported (plots all of the kind of the
+    first one, which holds for every chart a writer makes) *)
+Theorem C07_replace : forall sc d c c', replace sc d c = Ok c' -> homog (ch_plots c) ->
+  length (area_sers c') = data_len d /\
+  chart_names c' = map xml_norm (data_names d) /\
+  chart_values c' = data_values d /\
+  (forall p0 r, ch_plots c = p0 :: r -> is_xy_plot (p_tag p0) = true -> chart_xvalues c' = data_xvalues d) /\
+  (forall p0 r, ch_plots c = p0 :: r -> p_tag p0 = pt_bubble -> chart_sizes c' = data_sizes d).
+Proof. exact replace_reports. Qed.
+Print Assumptions C07_replace.
+
+Theorem C07_homog_written : forall ct d c, write ct d = Ok c -> homog (ch_plots c).
+Proof. exact homog_written. Qed.
+Print Assumptions C07_homog_written.
+
+Theorem C07_replace_categories : forall sc f fmt sers c c',
+  replace sc (DCat f fmt sers) c = Ok c' -> sers <> [] -> f <> [] ->
+  forall p, In p (ch_plots c') -> p_sers p <> [] ->
+  exists D, forest_depth f = Some D /\ (1 <= D)%nat /\
+    let tau := cat_text (ch_1904 c) f D in
+    plot_cat_count p = leaves_f f /\
+    plot_cat_depth p = Z.of_nat D /\
+    plot_flattened p = map (map tau) (paths_f f) /\
+    plot_cat_labels p = map (fun path => tau (last path dlabel)) (paths_f f) /\
+    plot_cat_levels p = if Nat.eqb D 1 then [] else map (map (tau' tau)) (levels f).
+Proof. exact replace_categories. Qed.
+Print Assumptions C07_replace_categories.
+
+(** replace_data changes names, categories and values only *)
+Theorem C07_replace_keeps : forall sc d c c', replace sc d c = Ok c' ->
+  exists rk, rewriter_kind c = Ok rk /\
+  let old := area_sers c in
+  let new := area_sers c' in
+  let n := data_len d in
+  ch_1904 c' = ch_1904 c /\ ch_rest c' = ch_rest c /\ length new = n /\
+  Forall2 (keeps (rk_tags rk)) (firstn (length old) new) (firstn n old) /\
+  (forall s, In s (skipn (length old) new) ->
+     exists src, In src old /\ other_kids (rk_tags rk) (s_kids s) = other_kids (rk_tags rk) (s_kids src)) /\
+  map frame (ch_plots c') = (if Nat.ltb n (length old) then surviving n (ch_plots c) else map frame (ch_plots c)).
+Proof. exact replace_keeps. Qed.
+Print Assumptions C07_replace_keeps.
+
+(** the series removed are exactly the last ones of plotArea.sers *)
+Theorem C07_trim : forall k ps,
+  area_sers_of (trim k ps) = firstn (length (area_sers_of ps) - k) (area_sers_of ps).
+Proof. exact area_sers_trim. Qed.
+Print Assumptions C07_trim.
+
+(** inside the property's domain replace_data can fail *)
+Theorem C07_replace_no_series_refuted :
+  (exists ct d0 d c0, write ct d0 = Ok c0 /\ data_len d = 1%nat /\ replace std_succs d c0 = Err OtherErr) /\
+  (exists ct d0 d c0 c1, write ct d0 = Ok c0 /\ data_len d = 1%nat /\ replace std_succs w_none c0 = Ok c1 /\
+                         ch_plots c1 = [] /\ replace std_succs d c1 = Err IndexErr).
+Proof. exact replace_no_series_refuted. Qed.
+Print Assumptions C07_replace_no_series_refuted.
+
+(** non-vacuity *)
+Example C07_ex_write_multi : exists c p, write 4 ex_multi = Ok c /\ ch_plots c = [p] /\
+  forest_depth ex_forest = Some 3%nat /\
+  plot_flattened p = [[[65]; [97; 49]; [120]]; [[65]; [97; 49]; [121]]; [[65]; [97; 50]; [122]]; [[66]; [98; 49]; [119]]]%N /\
+  map (map fst) (plot_cat_levels p) = [[0; 1; 2; 3]; [0; 2; 3]; [0; 3]] /\
+  chart_values c = [[Some [49%N]; None; Some [51%N]; Some [52%N]]].
+Proof. exact ex_write_multi. Qed.
+
+Example C07_ex_write_xy : exists c, write 74 ex_xy = Ok c /\ chart_values c = [[Some [50%N]; Some [51%N]]] /\
+  chart_xvalues c = [Some [Some [49%N]; None]].
+Proof. exact ex_write_xy. Qed.
+
+Example C07_ex_history : exists c0 c, write 57 w_one = Ok c0 /\ homog (ch_plots c0) /\
+  replace_all std_succs [DCat w_cats None [w_ser [97%N] []; w_ser [98%N] [None]; w_ser [99%N] []; w_ser [100%N] []];
+                         w_two; ex_multi] c0 = Ok c /\
+  map s_idx (area_sers c) = [0] /\ chart_names c = [[115%N]] /\
+  chart_values c = [[Some [49%N]; None; Some [51%N]; Some [52%N]]].
+Proof. exact ex_history. Qed.
